@@ -678,12 +678,17 @@ class ModuleCtx(object):
         self.tree = ast.parse(self.source, path)
         self.lines = self.source.splitlines()
         self.defs = {}
+        self.defs_by_line = {}
         self._index(self.tree.body, "")
 
     def _index(self, body, prefix):
         for node in body:
             if isinstance(node, (ast.FunctionDef,)):
                 self.defs[prefix + node.name] = node
+                # same-named definitions (property getter / setter): also indexed by first line
+                first = min([node.lineno] + [d.lineno for d in node.decorator_list])
+                self.defs_by_line[(prefix + node.name, first)] = node
+                self.defs_by_line[(prefix + node.name, node.lineno)] = node
             elif isinstance(node, ast.ClassDef):
                 self.defs[prefix + node.name] = node
                 self._index(node.body, prefix + node.name + ".")
@@ -962,10 +967,12 @@ class Interp(object):
         return npaths
 
     # ---- calling ----------------------------------------------------------
-    def get_func(self, modname, qualname):
+    def get_func(self, modname, qualname, firstlineno=None):
         """IFunc for a function/method of a repository module, from its AST."""
         mod = ModuleCtx.get(modname)
-        node = mod.defs.get(qualname)
+        node = mod.defs_by_line.get((qualname, firstlineno)) if firstlineno is not None else None
+        if node is None:
+            node = mod.defs.get(qualname)
         if node is None or not isinstance(node, ast.FunctionDef):
             raise OutsideSubset("no function %s in %s" % (qualname, modname))
         cls = None
@@ -996,7 +1003,7 @@ class Interp(object):
                 if q in self.no_inline:
                     raise OutsideSubset("callee %s has no contract" % q)
                 try:
-                    return self.get_func(modname, f.__qualname__)
+                    return self.get_func(modname, f.__qualname__, getattr(f.__code__, "co_firstlineno", None))
                 except OutsideSubset:
                     return f
         return f
